@@ -10,7 +10,7 @@ import (
 func init() {
 	register(&propDef{
 		ID:       "C12",
-		Explain:  "Decided (structural necessary condition of panic freedom): every panic-capable instruction in every module function reachable from the remote-input entry points (cache ingest and lifecycle entry points, Server.Subscribe/Update, manager.handleGNMIUpdate, the gnmi client's Recv path, CacheClient.defaultHandler, the CLI display path, path.ToStrings/CompletePath, value.ToScalar/Equal) — slice/string index and constant slicing, non-comma-ok type assertion, dereference of a pointer that may be nil by provenance (singular proto message field, getter result, map lookup, result of a function that can return nil), store into a possibly nil map, integer division, explicit panic — is on every path preceded by a branch decision (or a store / constructor fact) that makes it safe, or its precondition is established at every call site (propagated to a fixpoint), or is safe by construction. Also: a rejected update never writes the tree, and an error on one update of a multi-update notification does not skip the rest. Also decided: a possibly-nil pointer (map lookup, may-nil call result, singular message field) is never handed to a callee that dereferences the parameter, unless a nil test or a comma-ok test on a map whose stored values are provably non-nil guards it, or the key was enumerated from the same map. Round-4 additions: calls through function-typed fields that the module itself treats as possibly nil need a non-nil fact; manager.Reconnect and the collector's Reconnect RPC handler are entry points.",
+		Explain:  "Decided (structural necessary condition of panic freedom): every panic-capable instruction in every module function reachable from the remote-input entry points (cache ingest and lifecycle entry points, Server.Subscribe/Update, manager.handleGNMIUpdate, the gnmi client's Recv path, CacheClient.defaultHandler, the CLI display path, path.ToStrings/CompletePath, value.ToScalar/Equal) — slice/string index and constant slicing, non-comma-ok type assertion, dereference of a pointer that may be nil by provenance (singular proto message field, getter result, map lookup, result of a function that can return nil), store into a possibly nil map, integer division, explicit panic — is on every path preceded by a branch decision (or a store / constructor fact) that makes it safe, or its precondition is established at every call site (propagated to a fixpoint), or is safe by construction. Also: a rejected update never writes the tree, and an error on one update of a multi-update notification does not skip the rest. Also decided: a possibly-nil pointer (map lookup, may-nil call result, singular message field) is never handed to a callee that dereferences the parameter, unless a nil test or a comma-ok test on a map whose stored values are provably non-nil guards it, or the key was enumerated from the same map. Round-4 additions: calls through function-typed fields that the module itself treats as possibly nil need a non-nil fact; manager.Reconnect and the collector's Reconnect RPC handler are entry points. Round-5 addition: a nil result returned through the result cell of a function with a defer, and a pointer kept in a local that a closure captures, count as possibly nil at their dereferences.",
 		NotCover: "panics inside third-party code (protobuf, grpc, ygot, txtpbfmt); resource exhaustion; panics that need a data race; non-constant slice bounds; typed-nil interfaces; nil receivers of hand-written methods",
 		Run:      runC12,
 	})
